@@ -22,7 +22,7 @@ EXPLANATION = (
 
 def run(tier):
     cr = CheckRun("C03", tier, "other", EXPLANATION, "DESIGN §4 C03")
-    cr.contracts(["contracts.c03", "contracts.c04", "contracts.c02", "contracts.c05b", "contracts.cdispatch"])
+    cr.contracts(["contracts.c03", "contracts.c04", "contracts.c02", "contracts.c05b", "contracts.cdispatch", "contracts.c14c"])
     progs = gen.c03_scope(tier)
     length, limit = (4, 60) if tier == "quick" else (5, 600)
     for optimize in (True, False):
